@@ -127,6 +127,26 @@ theorem int_arith_mod (x y : Int) :
 example : Num.add stubFloatOps (.i (Int64.ofInt 9223372036854775807)) (.i 1)
     = .i (Int64.ofInt (-9223372036854775808)) := by decide
 
+/-- integer `^` with a non-negative exponent wraps like `+ - *`: it is the mathematical power of the
+integers reduced modulo 2⁶⁴, for *every* exponent (no truncation) -/
+theorem int_pow_wraps (F : FloatOps) (x : Int) (b : Int64) (hb : ¬ b < 0) :
+    Num.pow F (.i (Int64.ofInt x)) (.i b) = .i (Int64.ofInt (x ^ b.toInt.toNat)) := by
+  have hlt : b.toInt.toNat < 2 ^ 64 := by
+    have := Int64.toInt_lt b
+    omega
+  simp only [Num.pow, hb, if_false]
+  rw [wpow_spec 64 x _ hlt]
+
+/-- the code's `wrapping_pow(b as u32)` is **not** that function: the exponent is truncated to 32
+bits, so `2 ^ 4294967296` is `1` in Koto where wrapping arithmetic gives `0` (finding F-C01-5);
+below 2³² the two agree by definition of `asU32` -/
+theorem pow_trunc_witness :
+    Num.powTrunc stubFloatOps (.i 2) (.i 4294967296) = .i 1
+    ∧ Num.pow stubFloatOps (.i 2) (.i 4294967296) = .i 0
+    ∧ Num.powTrunc stubFloatOps (.i 3) (.i 4294967297) = .i 3
+    ∧ Num.pow stubFloatOps (.i 3) (.i 4294967297) = .i 7473929035676909571 := by
+  decide
+
 /-- `/` always yields a float -/
 theorem div_is_float (F : FloatOps) (a b : Num) : (Num.div F a b).isFloat = true := rfl
 
@@ -260,10 +280,10 @@ theorem loop_never_runs_null (F : FloatOps) (n : Nat) (c b : Expr) (s s₁ : St)
   · rw [eval_while, evalLoop_cond, hc]; simp [seq, hf]
   · rw [eval_until, evalLoop_cond, hc]; simp [seq, hf]
 
-/-- a `for` loop over an empty list is `null` -/
+/-- a `for` loop over an empty list is `null` (and leaves its loop variable `null`) -/
 theorem for_empty_null (F : FloatOps) (n x : Nat) (it b : Expr) (s s₁ : St)
     (hi : eval F n it s = (.ok (.list []), s₁)) :
-    eval F (n + 1) (.for x it b) s = (.ok .null, s₁) := by
+    eval F (n + 1) (.for x it b) s = (.ok .null, s₁.set x .null) := by
   obtain ⟨k, rfl⟩ := eval_pos hi
   rw [eval_for F (k + 1) x it b s s₁ _ [] hi rfl, evalFor_nil]
 
